@@ -37,6 +37,9 @@ FreshOK(e) ==
     /\ e.differs
     /\ IF e.key = "sk" THEN 2 * e.stdmilli >= e.sigmamilli ELSE e.stdmilli >= 250
     /\ e.wrongbits >= e.logq - 4
+    \* every component carries its error: without an auxiliary modulus c1 / pk1 = u + e1 / pk1 is of the order of the
+    \* modulus (it is the small u itself exactly when c1 has no error); the logged value is logq where this does not apply
+    /\ e.maskbits >= e.logq - 4
 
 \* a public key or an evaluation-key row: an sk-style error
 KeyNoiseOK(e) == ~e.err /\ ~e.panic /\ e.errbits <= e.bbits /\ 2 * e.stdmilli >= e.sigmamilli
